@@ -3115,13 +3115,14 @@ func (c S3ApiController) DeleteObjects(ctx *fiber.Ctx) error {
 	res.Error = append(res.Error, denied...)
 	return SendXMLResponse(ctx, res, err,
 		&MetaOpts{
-			Logger:      c.logger,
-			MetricsMng:  c.mm,
-			Action:      metrics.ActionDeleteObjects,
-			ObjectCount: int64(len(dObj.Objects)),
-			BucketOwner: parsedAcl.Owner,
-			EvSender:    c.evSender,
-			EventName:   s3event.EventObjectRemovedDeleteObjects,
+			Logger:         c.logger,
+			MetricsMng:     c.mm,
+			Action:         metrics.ActionDeleteObjects,
+			ObjectCount:    int64(len(dObj.Objects)),
+			BucketOwner:    parsedAcl.Owner,
+			EvSender:       c.evSender,
+			EventName:      s3event.EventObjectRemovedDeleteObjects,
+			DeletedObjects: res.Deleted,
 		})
 }
 
@@ -3993,6 +3994,8 @@ type MetaOpts struct {
 	ObjectETag    *string
 	VersionId     *string
 	Status        int
+	// DeletedObjects are the objects a DeleteObjects request removed
+	DeletedObjects []types.DeletedObject
 }
 
 func SendResponse(ctx *fiber.Ctx, err error, l *MetaOpts) error {
@@ -4107,11 +4110,12 @@ func SendXMLResponse(ctx *fiber.Ctx, resp any, err error, l *MetaOpts) error {
 
 	if l.EvSender != nil {
 		l.EvSender.SendEvent(ctx, s3event.EventMeta{
-			BucketOwner: l.BucketOwner,
-			ObjectSize:  l.ObjectSize,
-			ObjectETag:  l.ObjectETag,
-			VersionId:   l.VersionId,
-			EventName:   l.EventName,
+			BucketOwner:    l.BucketOwner,
+			ObjectSize:     l.ObjectSize,
+			ObjectETag:     l.ObjectETag,
+			VersionId:      l.VersionId,
+			EventName:      l.EventName,
+			DeletedObjects: l.DeletedObjects,
 		})
 	}
 
